@@ -211,17 +211,28 @@ def ob_tree(ctx, var, rows, cols, dim, batch, nthreads):
 # ---------------------------------------------------------------- parcpy / parSetZero: symbolic size and thread count
 def ob_parcpy_chunks(ctx, which):
     from .C17 import PARCPY, PARZERO
-    w = setup(ctx, ['gbf_omp']); it = Interp(w)
+    w = setup(ctx, ['gbf_omp'])
     size = z3.BitVec('size', 64); nt = z3.BitVec('num_threads', 32)
-    dst = Obj(None, 'dst', 8, 'arg'); src = Obj(None, 'src', 8, 'arg'); w.roots = [dst, src]
-    it.pc.append(z3.ULT(size, bvv(1 << 60, 64)))
-    it.solver = z3.Solver(); it.solver.set('timeout', 60000); w.no_seq = True
-    try:
+    dst = Obj(None, 'dst', 8, 'arg'); src = Obj(None, 'src', 8, 'arg')
+    def go(it):
+        w.regions = []; w.roots = [dst, src]; w.no_seq = True
+        it.pc.append(z3.ULT(size, bvv(1 << 60, 64)))
         if which == 'parcpy': it.call(PARCPY, [Ptr(dst, 0), Ptr(src, 0), size, nt])
         else: it.call(PARZERO, [Ptr(dst, 0), size, nt])
+        return list(w.regions)
+    try: allp = explore(w, go, max_paths=16)
     except Unsupported as e: return inconc('%s: %s' % (which, e))
-    if len(w.regions) != 1: return inconc('%s: %d regions' % (which, len(w.regions)))
-    reg = w.regions[0]; pre = [z3.ULT(size, bvv(1 << 60, 64))]
+    regs = []
+    for p_ in allp:
+        if p_.status != 'ok': return inconc('%s: a path before the parallel region ends in %s' % (which, p_.result))
+        if not p_.result:
+            # a path without parallel region may only be taken when there is nothing to transfer
+            r0 = smt.prove(lambda tr: tr.val(size) == 0, assumptions=list(p_.pc), timeout=30)
+            if r0.status != 'unsat': return inconc('%s: a path with size != 0 does not go through a parallel region (sequential fast path?): not analysed by this obligation (%s)' % (which, r0.status))
+            continue
+        regs += p_.result
+    if len(regs) != 1: return inconc('%s: %d regions' % (which, len(regs)))
+    reg = regs[0]; pre = [z3.ULT(size, bvv(1 << 60, 64))]
     nq = 0
     # Int-level facts about the symbolic iteration k: write range [8·off, 8·off + len)
     wr = []
